@@ -139,7 +139,16 @@ func handleGetUser(w http.ResponseWriter, r *http.Request, s Server) (int, error
 		return restapi.EncodeResponse(w, http.StatusNotFound, &userNotFoundJSON)
 	}
 
-	return restapi.EncodeResponse(w, http.StatusOK, response{userCred, s.StatsCollector.Snapshot().Traffic})
+	// Report the traffic of this user, not the server's total.
+	var userTraffic stats.Traffic
+	for _, u := range s.StatsCollector.Snapshot().Users {
+		if u.Name == username {
+			userTraffic = u.Traffic
+			break
+		}
+	}
+
+	return restapi.EncodeResponse(w, http.StatusOK, response{userCred, userTraffic})
 }
 
 func handleUpdateUser(w http.ResponseWriter, r *http.Request, s Server) (int, error) {
